@@ -51,6 +51,11 @@ def obligations(tier, seed):
         sks = rnd.sample(sks, 40)
     sks = sks + STAR
     jobs = []
+    if quick:
+        # every harvested snippet through its own rule (cheap): a rule that mutates a cached tree shows on the
+        # inputs it fires on, which a 40-program sample rarely contains
+        have = {sk.sid for sk in sks}
+        jobs += [(sk, sk.meta["rule"]) for sk in poolfam.harvested_skeletons() if sk.meta.get("rule") and sk.sid not in have]
     for sk in sks:
         if sk.meta.get("rule"):
             jobs.append((sk, sk.meta["rule"]))
